@@ -32,6 +32,12 @@ open Parsley Parsley.Prim Parsley.Obj Parsley.Spelling Driver
                                                    (`nameDenote`); judged like `sp` (two spellings of one name as keys of one
                                                    dictionary: `dup`)
     `nohash <d> <hex>`                             such a text whose name token contains the code `#00`: must be rejected
+    `sgn <d> <hex> <len> <lead> <expected sexp…>`  a text around a reference whose object number and / or generation carry an
+                                                   explicit sign (`+7 0 R`, `7 +0 R`, `+007 +00 R`, `7 -0 R`), bare / in arrays /
+                                                   in dictionaries, or a near miss of one at the top level (`7 + R`: the Integer 7);
+                                                   expected value by the judge's own reading (`sgnShape` / `sgnMember`)
+    `nosgn <d> <hex> <len> <lead>`                 such a text that is not an object (`-` before a non-zero number of a reference;
+                                                   a near miss inside an array / dictionary): must be rejected
     `cut <d> <hex> <r>`                            a strict prefix of a legal spelling (the rest lies behind the window of a
                                                    view case): whatever is accepted lies inside the buffer; with r = 1 (a
                                                    string, array or dictionary cut before its closing delimiter) it must be
@@ -161,8 +167,148 @@ def judgeHash (tag hex len lead : String) (sexp : List String) (impl : String) :
       else "bad panic-or-crash"
   | _, _, _ => "bad-case"
 
+/-! ### signed components of a reference
+
+  The two numbers of a reference are integers of the lexical rules: each may carry an explicit `+` (and leading
+  zeros behind it), and `-0` is the integer 0: `+7 0 R`, `7 +0 R`, `+007 +00 R`, `7 -0 R` all denote the reference
+  (7, 0).  A `-` before a non-zero number makes the text no object at all (an object number / generation is never
+  negative; and by `Follows` of Props/C02Struct.lean - whose `RefTail` carries the optional sign of the generation - an
+  Integer is never followed by `ws+ integer ws+ R`).  The reading below is the judge's own (spec side; it shares
+  nothing with the model): optional sign, digits, a non-empty whitespace / comment run, optional sign, digits, a
+  non-empty run, `R`, then the end of the text or a non-regular byte.  Near misses - a sign without digits, a sign
+  before `R`, two signs, `R` glued to the number or to a regular character - are no references: at the top level the
+  first number is an Integer of its own and the cursor stays behind it; inside an array / dictionary the text is not
+  an object (a lone sign and a lone `R` are none).  The judge recognises the text of a `sgn` / `nosgn` case as a
+  member of the family and derives the expectation itself (a shrunk candidate outside the family is never counted
+  against the implementation). -/
+
+def sgnLeads : List Bytes := [[], [32], bs "%c\n ", [13, 10]]
+
+def sgnWsByte (b : UInt8) : Bool := b == 0 || b == 9 || b == 10 || b == 12 || b == 13 || b == 32
+def sgnDigit (b : UInt8) : Bool := 48 ≤ b && b ≤ 57
+
+mutual
+/-- drop a (possibly empty) run of whitespace and comments (a comment ends with LF) -/
+def sgnDropWs : Bytes → Bytes
+  | [] => []
+  | b :: t => if sgnWsByte b then sgnDropWs t else if b == 37 then sgnDropCom t else b :: t
+def sgnDropCom : Bytes → Bytes
+  | [] => []
+  | b :: t => if b == 10 then sgnDropWs t else sgnDropCom t
+end
+
+/-- optional sign and digit run: (a `-` is written, the digits, the rest) -/
+def sgnReadInt (s : Bytes) : Bool × Bytes × Bytes :=
+  let (neg, t) : Bool × Bytes := match s with
+    | 45 :: t => (true, t)
+    | 43 :: t => (false, t)
+    | _ => (false, s)
+  (neg, t.takeWhile sgnDigit, t.dropWhile sgnDigit)
+
+structure SgnShape where
+  neg1 : Bool
+  ds1 : Bytes
+  neg2 : Bool
+  ds2 : Bytes
+  len : Nat
+
+/-- does `s` begin with `[sign] digits ws+ [sign] digits ws+ R` (both magnitudes at most i64::MAX) before the end of the
+    text or a non-regular byte?  `len`: the bytes up to and including `R`. -/
+def sgnShape (s : Bytes) : Option SgnShape :=
+  let (n1, d1, r1) := sgnReadInt s
+  let r2 := sgnDropWs r1
+  let (n2, d2, r3) := sgnReadInt r2
+  let r4 := sgnDropWs r3
+  if d1.isEmpty || d2.isEmpty || r2.length == r1.length || r4.length == r3.length then none
+  else if !(NumLit.headerOK (DecLit.decVal d1)) || !(NumLit.headerOK (DecLit.decVal d2)) then none
+  else match r4 with
+    | 82 :: tail =>
+      if (match tail.head? with | none => true | some y => !isRegularByte y) then some ⟨n1, d1, n2, d2, s.length - tail.length⟩
+      else none
+    | _ => none
+
+/-- **what a text of that shape denotes**: the reference (value, value); with a `-` before a non-zero number: no object -/
+def sgnDenote (sh : SgnShape) : Option Obj :=
+  let v1 := DecLit.decVal sh.ds1
+  let v2 := DecLit.decVal sh.ds2
+  if (sh.neg1 && v1 != 0) || (sh.neg2 && v2 != 0) then none else some (.ref v1 v2)
+
+/-- the near misses after a first number `t1` (generation digits `g`): none is a reference, each contains a lone
+    sign, a lone `R`/`r`, or `R` glued to a regular character -/
+def sgnNear (t1 g : Bytes) : List Bytes :=
+  ([bs " + R", bs " +R", bs " + " ++ g ++ bs " R", bs " " ++ g ++ bs " +R", bs " +" ++ g ++ bs "R x", bs " +" ++ g ++ bs " Rx",
+    bs " +-" ++ g ++ bs " R", bs " ++" ++ g ++ bs " R", bs " -+" ++ g ++ bs " R", bs " +" ++ g ++ bs " +R",
+    bs "\n+\n" ++ g ++ bs " R", bs " +" ++ g ++ bs " r", bs " - " ++ g ++ bs " R", bs " +" ++ g ++ bs " R+"] : List Bytes).map (t1 ++ ·)
+
+def sgnRuns : Bytes → List Bytes
+  | [] => []
+  | b :: t => (if sgnDigit b then [(b :: t).takeWhile sgnDigit] else []) ++ sgnRuns t
+
+def sgnIsNear (core : Bytes) : Bool :=
+  let (_, d1, r1) := sgnReadInt core
+  let t1 := core.take (core.length - r1.length)
+  !d1.isEmpty && (sgnRuns r1 ++ [bs "0"]).any fun g => (sgnNear t1 g).contains core
+
+/-- the positions of a reference inside arrays and dictionaries: text before, text behind, the value around it -/
+def sgnWraps : List (Bytes × Bytes × (Obj → Obj)) :=
+  [(bs "[", bs "]", fun v => .arr [v]),
+   (bs "[1 ", bs "/X]", fun v => .arr [.int 1, v, .name (bs "X")]),
+   (bs "[7 0 R ", bs "\n]", fun v => .arr [.ref 7 0, v]),
+   (bs "[", bs " 7 0 R]", fun v => .arr [v, .ref 7 0]),
+   (bs "[(a)", bs " 5]", fun v => .arr [.str (bs "a"), v, .int 5]),
+   (bs "<</A ", bs ">>", fun v => .dict [(bs "A", v)]),
+   (bs "<</A ", bs "/B 1>>", fun v => .dict [(bs "A", v), (bs "B", .int 1)]),
+   (bs "<</A[", bs " ]>>", fun v => .dict [(bs "A", .arr [v])]),
+   (bs "[<</K ", bs " >>(s)]", fun v => .arr [.dict [(bs "K", v)], .str (bs "s")])]
+
+/-- is `buf` = lead ++ text ++ rest a case of the family?  Then: what the text denotes (`none`: not an object).
+    Bare: the text is a signed reference that ends where the text ends, or a signed integer (at most i64::MAX) before
+    a non-regular byte that is not the beginning of such a reference.  Inside an array / dictionary: one of `sgnWraps`
+    around a signed reference or around a near miss of `sgnNear`. -/
+def sgnMember (buf : Bytes) (len lead : Nat) : Option (Option Obj) :=
+  if len > buf.length || lead > len || !(sgnLeads.contains (buf.take lead)) then none
+  else
+    let sp := (buf.take len).drop lead
+    let rest := buf.drop len
+    let restOK := match rest.head? with | none => true | some y => !isRegularByte y
+    match sgnShape (sp ++ rest) with
+    | some sh => if sh.len == sp.length then some (sgnDenote sh) else none
+    | none =>
+      let (n1, d1, r1) := sgnReadInt sp
+      let v1 := DecLit.decVal d1
+      if !d1.isEmpty && r1.isEmpty && NumLit.headerOK v1 && restOK then
+        some (some (.int (if n1 then -(v1 : Int) else (v1 : Int))))
+      else sgnWraps.findSome? fun (pre, suf, f) =>
+        if pre.isPrefixOf sp && suf.isSuffixOf sp && pre.length + suf.length ≤ sp.length then
+          let core := (sp.drop pre.length).take (sp.length - pre.length - suf.length)
+          match sgnShape (core ++ suf) with
+          | some sh => if sh.len == core.length then some ((sgnDenote sh).map f) else none
+          | none => if sgnIsNear core then some none else none
+        else none
+
+def judgeSgn (tag hex len lead : String) (sexp : List String) (impl : String) : String :=
+  match bytesOfHex hex, len.toNat?, lead.toNat? with
+  | some buf, some l, some ld =>
+    match sgnMember buf l ld with
+    | none => "bad generator-outside-family the text is not one of the signed-reference family"
+    | some (some v) =>
+      let want := s!"ok {ld} {l} {l} {objSexp v}"
+      if tag != "sgn" || " ".intercalate sexp != objSexp v then "bad generator-outside-family expectation differs from the family's"
+      else if impl.trimAscii.toString == want then "ok"
+      else if impl.startsWith "ok" then s!"bad wrong-value-or-cursor want={want}"
+      else if impl.startsWith "err" then s!"bad legal-spelling-rejected want={want}"
+      else "bad panic-or-crash"
+    | some none =>
+      if tag != "nosgn" then "bad generator-outside-family expectation differs from the family's"
+      else if impl.startsWith "err" then "ok"
+      else if impl.startsWith "ok" then "bad non-reference-accepted a negative number in a reference, or a lone sign / lone R inside an array or dictionary"
+      else "bad panic-or-crash"
+  | _, _, _ => "bad-case"
+
 def judgePlain (case impl : String) : String :=
   match words case with
+  | "sgn" :: _ :: hex :: len :: lead :: sexp => judgeSgn "sgn" hex len lead sexp impl
+  | "nosgn" :: _ :: hex :: len :: lead :: _ => judgeSgn "nosgn" hex len lead [] impl
   | "sp" :: _ :: _ :: len :: lead :: sexp | "lit" :: _ :: _ :: len :: lead :: sexp
   | "pad" :: _ :: _ :: len :: lead :: sexp =>
     let want := s!"ok {lead} {len} {len} " ++ " ".intercalate sexp
@@ -568,7 +714,10 @@ def padSpell : Obj → Ch → Bytes × Ch
     let (z2, c) := pick c 46
     let (w1, c) := wsReq c
     let (w2, c) := wsReq c
-    (zeros z1 ++ natDigits n ++ w1 ++ zeros z2 ++ natDigits g ++ w2 ++ [82], c)
+    -- an explicit `+` before the object number / the generation (one time in three each)
+    let (p1, c) := pick c 3
+    let (p2, c) := pick c 3
+    ((if p1 == 1 then [43] else []) ++ zeros z1 ++ natDigits n ++ w1 ++ (if p2 == 1 then [43] else []) ++ zeros z2 ++ natDigits g ++ w2 ++ [82], c)
   | .arr xs, c =>
     let (w, c) := wsOpt c
     let (r, c) := padElems xs [91] c
@@ -618,6 +767,54 @@ def hasNumKvs : List (Bytes × Obj) → Bool
   | [] => false
   | (_, v) :: t => hasNum v || hasNumKvs t
 end
+
+/-! ### signed components of a reference: the generator (reading and judge: `sgnShape`, `sgnMember`, `judgeSgn` above) -/
+
+def sgnCase (lead text ctx : Bytes) (e : Option Obj) : String :=
+  match e with
+  | some e => s!"sgn 5 {hexOfBytes (lead ++ text ++ ctx)} {lead.length + text.length} {lead.length} {objSexp e}"
+  | none => s!"nosgn 5 {hexOfBytes (lead ++ text ++ ctx)} {lead.length + text.length} {lead.length}"
+
+/-- every reference position with signed numbers: (object number, generation) x sign of each (none, `+`, `-`) x zero
+    padding behind the sign x whitespace / comment separators, bare before the following contexts and in every
+    position of `sgnWraps`; and the near misses of `sgnNear` (top level: the first number alone; inside: no object) -/
+def sgnSweep (emit : String → IO Unit) (full : Bool) : IO Unit := do
+  let mut k := 0
+  let bases : List (Nat × Nat) := [(7, 0), (12, 3), (0, 0), (629, 1), (1, 65535), (2 ^ 63 - 1, 0), (5, 2 ^ 63 - 1)]
+  let signs : List Bytes := [[], [43], [45]]
+  let pads : List (Nat × Nat) := [(0, 0), (2, 1), (0, 2), (3, 0), (1, 19)]
+  for (n, g) in bases do
+    for s1 in signs do
+      for s2 in signs do
+        for j in List.range pads.length do
+          k := k + 1
+          if full || j == 0 || j == 1 + k % 4 then
+            let (z1, z2) := pads[j]?.getD (0, 0)
+            let t1 := s1 ++ zeros z1 ++ natDigits n
+            let t2 := s2 ++ zeros z2 ++ natDigits g
+            let w1 := padWs[k % padWs.length]?.getD [32]
+            let w2 := padWs[(k / 3) % padWs.length]?.getD [32]
+            let core := t1 ++ w1 ++ t2 ++ w2 ++ [82]
+            let e : Option Obj := if (s1 == [45] && n != 0) || (s2 == [45] && g != 0) then none else some (.ref n g)
+            let lead := sgnLeads[k % 4]?.getD []
+            for ctx in padCtxs full k do
+              emit (sgnCase lead core (genContextFor false ctx) e)
+            let after := contexts[k % contexts.length]?.getD []
+            for (pre, suf, f) in sgnWraps do
+              emit (sgnCase lead (pre ++ core ++ suf) after (e.map f))
+  -- near misses
+  for (n, g) in bases.take 5 do
+    for s1 in signs do
+      k := k + 1
+      let t1 := s1 ++ zeros (k % 3) ++ natDigits n
+      let gd := zeros (k % 2) ++ natDigits g
+      let lead := sgnLeads[k % 4]?.getD []
+      for core in sgnNear t1 gd do
+        emit (sgnCase lead t1 (core.drop t1.length) (some (.int (if s1 == [45] then -(n : Int) else (n : Int)))))
+        let mut j := 0
+        for (pre, suf, _) in sgnWraps do
+          j := j + 1
+          if full || j % 3 == k % 3 then emit (sgnCase lead (pre ++ core ++ suf) [] none)
 
 /-! ### raw `#` in names: the generator (texts and judge: `hashTexts`, `judgeHash` above) -/
 
@@ -734,7 +931,7 @@ def viewTwin (c : Nat) (line : String) (cont : Option Bytes) : Option String :=
         match rest with
         | len :: _ =>
           match len.toNat? with
-          | some l => if (tag == "sp" || tag == "lit" || tag == "pad" || tag == "hash") && c % 3 == 0 && l > 0 && l ≤ buf.length
+          | some l => if (tag == "sp" || tag == "lit" || tag == "pad" || tag == "hash" || tag == "sgn") && c % 3 == 0 && l > 0 && l ≤ buf.length
                       then some (" ".intercalate (tag :: d :: hexOfBytes (buf.take l) :: rest), l, buf.drop l) else none
           | none => none
         | [] => none
@@ -800,6 +997,7 @@ def gen (seed n : Nat) (tier : String) (emit0 : String → IO Unit) : IO Unit :=
   numLits emit (tier == "thorough")
   decLits emit (tier == "thorough")
   padSweep emit (tier == "thorough")
+  sgnSweep emit (tier == "thorough")
   hashSweep emit (tier == "thorough") seed
   let mut r := Rng.mk' seed
   for i in List.range n do
@@ -855,6 +1053,8 @@ def nontrivialPlain (line : String) : Bool :=
   | "lit" :: _ :: hex :: _ => hex.length ≥ 8
   | "pad" :: _ :: hex :: _ => hex.length ≥ 8
   | "hash" :: _ :: hex :: _ => hex.length ≥ 8
+  | "sgn" :: _ :: hex :: _ => hex.length ≥ 8
+  | "nosgn" :: _ => true
   | "nolit" :: _ => true
   | "nohash" :: _ => true
   | "dup" :: _ => true
